@@ -4,7 +4,7 @@ from __future__ import annotations
 import itertools
 
 import lang
-from chartgen import chart_text, keyword_like_words, outcome, wide_chars
+from chartgen import ESCAPE_LIKE, chart_text, keyword_like_words, outcome, wide_chars
 from common import cps, rng
 
 SYMBOLS = ['"', " ", "=", "[", "]", "a", "é", "lyric", "lyric ", "section", "section ", "♪", "{", "0"]
@@ -80,6 +80,16 @@ def run(ctx):
     for c in wide_chars(r, ctx.pick(40, 1500)):
         for t in (f"lyric {c}", f"lyric a{c}b", f"lyric ab{c}", f"section {c}x", f"section x {c}", f"{c}", f"ev{c}ent", f"x{c}"):
             recs.append(observe_line(f"t{k}", f'{r.choice(["0", "96", "1000"])} = E "{t}"'))
+            k += 1
+            ctx.evaluations += 1
+    # sequences that some syntax treats as an escape, a comment or a delimiter (\\" // /* # ; -- &quot; ...): here they are text
+    for fr in ESCAPE_LIKE:
+        if '"' in fr:
+            texts_ = [f"lyric a{fr}b", f"section {fr}", f"lyric {fr}{fr}"]          # (inner quotes: lyric / section only)
+        else:
+            texts_ = [f"lyric a{fr}b", f"section {fr}", f"x{fr}y", f"{fr}", f"lyric http:{fr}example{fr}", f"a {fr} b"]
+        for t in texts_:
+            recs.append(observe_line(f"t{k}", f'{r.choice(["0", "96"])} = E "{t}"'))
             k += 1
             ctx.evaluations += 1
     # the kind words themselves in every capitalisation, and words that only case-fold to them: "Section x", "LYRIC x", U+017F
